@@ -351,7 +351,7 @@ class C05(EmuCheck):
     def groups(self, tier, seed):
         rng = random.Random(seed * 179424673 + 5)
         helper = depschk.C05Abstract()
-        hs = helper.histories(3, depschk.ALLK, "C05-gen")
+        hs = helper.histories(3, depschk.ALLK, "C05-gen") + helper.histories(3, depschk.SAMEKEY, "C05-genk")
         if tier == "thorough":
             hs += helper.histories(4, [1, 2, 3, 6, 7, 9, 10, 12, 13, 14], "C05-gen4")
         self.exhaustive = tier == "thorough"
